@@ -148,6 +148,63 @@ def features(sc, obs):
 
 
 _me = sys.modules[__name__]
-def run(ctx, fr, model_available=True): return base_scn.run(_me, ctx, fr, model_available)
+WRAPPED_SRC = r"""
+import deal, functools, random
+__name__ = "c12_wrapped_probe"
+def probe(seed):
+    # implementations that are themselves wrapped callables (functools.lru_cache, a wraps-style decorator) below their guards, guards in
+    # explicit and `_` form, both switch positions: the first implementation whose guard accepts runs, no other body is entered
+    rnd = random.Random(seed)
+    bad = []
+    def logged(fn):
+        @functools.wraps(fn)
+        def w(*a, **k): return fn(*a, **k)
+        return w
+    for _ in range(40):
+        n = rnd.randint(1, 4)
+        lows = [rnd.randint(0, 6) for _ in range(n)]; highs = [l + rnd.randint(0, 4) for l in lows]
+        forms = [rnd.choice(["explicit", "short"]) for _ in range(n)]
+        layers = [rnd.choice([None, "lru", "wraps"]) for _ in range(n)]
+        entered = []
+        @deal.dispatch
+        def d(x): raise NotImplementedError
+        for i in range(n):
+            def impl(x, i=i):
+                entered.append(i); return ("impl", i, x)
+            if layers[i] == "lru": impl = functools.lru_cache(None)(impl)
+            elif layers[i] == "wraps": impl = logged(impl)
+            lo, hi = lows[i], highs[i]
+            guard = (lambda lo, hi: (lambda x: lo <= x <= hi))(lo, hi) if forms[i] == "explicit" else (lambda lo, hi: (lambda _: lo <= _.x <= hi))(lo, hi)
+            d.register(deal.pre(guard)(impl))
+        for enabled in (True, False):
+            (deal.enable if enabled else deal.disable)()
+            for x in range(-1, 12):
+                del entered[:]
+                for i in range(n):
+                    if layers[i] == "lru":
+                        pass
+                try: got = d(x)
+                except deal.NoMatchError as e: got = ("nomatch", len(e.exceptions))
+                except BaseException as e: got = ("exc", type(e).__name__)
+                first = next((i for i in range(n) if lows[i] <= x <= highs[i]), None)
+                want = ("impl", first, x) if first is not None else ("nomatch", n)
+                # an lru_cache'd body is not re-entered for a repeated argument: only "no OTHER body" is required
+                if got != want or any(i != first for i in entered):
+                    bad.append([lows, highs, forms, layers, enabled, x, list(got), list(want), list(entered)])
+        deal.enable()
+    return bad
+"""
+
+
+def run(ctx, fr, model_available=True):
+    base_scn.run(_me, ctx, fr, model_available)
+    from ..harness import impl
+    r = impl.run_impl('pyexec.py', {'src': WRAPPED_SRC, 'calls': [['probe', [ctx.seed]]]})[0]
+    fr.evaluations += 40; fr.add_nontrivial({'wrapped_probe': ctx.seed})
+    fr.samples.append({'family': 'dispatch over wrapped implementations', 'deviations': r if isinstance(r, dict) else len(r)})
+    if isinstance(r, dict): fr.errors.append('C12 wrapped probe failed: ' + str(r)[:400])
+    elif r:
+        fr.violations.append({'scenario': {'family': 'wrapped-implementations', 'seed': ctx.seed, 'case': r[0]}, 'impl': r[:3], 'signature': None,
+                              'what': f'[lows, highs, guard forms, layers, enabled, x, got, expected, bodies entered] = {r[0]}'})
 def search(ctx, fr, model_available=True): return base_scn.search(_me, ctx, fr, model_available)
 classify = base_scn.classify
